@@ -1146,7 +1146,7 @@ class C07(core.Check):
             "directly written offset_rows / inset_fraction, steps); each step is one action (render only, "
             "up/down/page up/page down/home/end/item keys, mouse press button 1/2/4/5, set_focus with coming_from, "
             "set_focus_valign, shift_focus, change_focus, make_cursor_visible, walker insert/delete/replace/clear/*=/+=/"
-            "slice assignment/reverse/sort, in-place reflow of every item) followed by render((cols, maxrow), focus) unless "
+            "slice assignment/slice deletion (extended slices included)/reverse/sort, in-place reflow of every item) followed by render((cols, maxrow), focus) unless "
             "flagged 'nr'; the previous canvases stay referenced, as by a screen, so a stale cached canvas shows.  Exhaustive "
             "states: <= 3 items x heights 0..3 x maxrow 1..4 x every focus x offset 0..maxrow+1 x inset fractions x cursor "
             "rows; random histories on labelled item widgets (model compared) and on real Text/Edit/selectable/two-column "
